@@ -172,6 +172,40 @@ class ScriptedBroker(AsyncBroker):
             yield payload
 
 
+from taskiq.brokers.inmemory_broker import InMemoryBroker  # noqa: E402
+
+
+class MonInMemoryBroker(InMemoryBroker):
+    """The real InMemoryBroker (kick() runs Receiver.callback in a new asyncio task) with recording."""
+
+    sc: Scenario
+
+    def new_delivery(self, info: Dict[str, Any]) -> int:
+        d = len(self.sc.deliveries)
+        info["d"] = d
+        self.sc.deliveries.append(info)
+        return d
+
+    async def kick(self, message: BrokerMessage) -> None:
+        sc = self.sc
+        n = self.__dict__.setdefault("nkicks", 0)
+        self.__dict__["nkicks"] = n + 1
+        sc.trace.add("kick", OWNER.get(), task_id=message.task_id, n=n, task_name=message.task_name)
+        sc.kicked.append(message)
+        kf = sc.spec.get("kick_fail") or []
+        if n in kf:
+            sc.trace.add("kick_fail", OWNER.get(), task_id=message.task_id, n=n)
+            kind = (sc.spec.get("kick_exc") or ["BackendDown"])
+            raise _kick_exc(kind[n % len(kind)])
+        info = {"tok": message.task_id, "kind": "valid", "loop": True, "ackable": False, "task": message.task_name}
+        d = self.new_delivery(info)
+        payload = TBytes(message.message)
+        sc.keep.append(payload)
+        sc.by_obj[id(payload)] = d
+        sc.trace.add("yield", d, tok=message.task_id, mk="valid")
+        await super().kick(message.model_copy(update={"message": payload}))
+
+
 class TBytes(bytes):
     """A bytes object with its own identity (plain equal bytes objects may be shared / cached, e.g. b"")."""
 
@@ -664,7 +698,15 @@ def run_worker(spec: Dict[str, Any], real: bool = False) -> RunResult:
             sc.trace.now = lambda: loop.time() - T0
         else:
             sc.trace.loop = loop
-        broker = ScriptedBroker(sc)
+        inmem = spec.get("via") == "inmemory"
+        if inmem:
+            MonInMemoryBroker.sc = sc
+            broker: Any = MonInMemoryBroker(
+                cast_types=cfg.get("validate", True), max_async_tasks=cfg.get("A") or 30,
+                propagate_exceptions=cfg.get("propagate", True),
+            )
+        else:
+            broker = ScriptedBroker(sc)
         broker.result_backend = RecordingBackend(sc)
         tasks = dict(DEFAULT_TASKS)
         tasks.update(spec.get("tasks", {}))
@@ -689,6 +731,51 @@ def run_worker(spec: Dict[str, Any], real: bool = False) -> RunResult:
             mws.insert(min(pos, len(mws)), rm)
         if mws:
             broker.add_middlewares(*mws)
+        if inmem:
+            # the broker built its own Receiver in __init__; use the recording subclass with the same settings
+            MonReceiver.sc = sc
+            broker.receiver = MonReceiver(
+                broker=broker, executor=broker.executor, validate_params=cfg.get("validate", True),
+                max_async_tasks=cfg.get("A") or 30, propagate_exceptions=cfg.get("propagate", True),
+            )
+            broker.receiver.sc = sc
+
+            async def _send_im(idx: int, m: Dict[str, Any]) -> None:
+                tok = m.get("tok") or f"m{idx}"
+                sc.beh[tok] = m.get("beh", {"dur": [], "out": "ok"})
+                if m.get("at"):
+                    await asyncio.sleep(m["at"])
+                labels = dict(m.get("labels", {}))
+                labels["own"] = tok
+                if m.get("timeout") is not None:
+                    labels["timeout"] = m["timeout"]
+                sc.trace.add("send_begin", None, tok=tok)
+                try:
+                    await AsyncKicker(m.get("task", "t_async"), broker, labels).with_task_id(tok).kiq(
+                        tok, *m.get("args", []), **m.get("kwargs", {}))
+                    sc.trace.add("send_ok", None, tok=tok)
+                except BaseException as exc:  # noqa: BLE001
+                    from taskiq.exceptions import SendTaskError
+
+                    sc.trace.add("send_err", None, tok=tok, exc=type(exc).__name__, cause=type(exc.__cause__).__name__,
+                                 is_send_error=isinstance(exc, SendTaskError))
+
+            items = list(enumerate(spec.get("msgs", []))) + [(1000 + i, c) for i, c in enumerate(spec.get("client_sends", []))]
+            await asyncio.gather(*[_send_im(i, m) for i, m in items if m.get("kind", "valid") == "valid"])
+            # drain: every execution task started by kick() (some may end with an exception: failing hooks)
+            for _ in range(50):
+                pending = list(broker._running_tasks)
+                if not pending:
+                    break
+                await asyncio.wait(pending, timeout=spec.get("horizon", 120.0))
+                for t in pending:
+                    if t.done() and not t.cancelled():
+                        t.exception()
+            rr.outcome = "returned" if not broker._running_tasks else "horizon"
+            rr.R = loop.time() - T0
+            sc.trace.add("listen_" + rr.outcome, err=None)
+            broker.executor.shutdown(wait=False)
+            return
         # messages
         for idx, m in enumerate(spec.get("msgs", [])):
             tok = m.get("tok") or f"m{idx}"
@@ -728,6 +815,29 @@ def run_worker(spec: Dict[str, Any], real: bool = False) -> RunResult:
             await asyncio.gather(*[_send(s) for s in sends])
         ack = AcknowledgeType(cfg.get("ack", "when_saved"))
         MonReceiver.sc = sc
+        if spec.get("via") == "api":
+            # the programmatic entry point taskiq.api.run_receiver_task builds the Receiver itself and
+            # listens forever; the run ends at the horizon by cancelling it
+            from taskiq.api import run_receiver_task
+
+            t = asyncio.ensure_future(run_receiver_task(
+                broker, receiver_cls=MonReceiver, sync_workers=cfg.get("threads", 4),
+                validate_params=cfg.get("validate", True), max_async_tasks=cfg["A"], max_prefetch=cfg.get("P", 0),
+                propagate_exceptions=cfg.get("propagate", True), run_startup=False, ack_time=ack))
+            done, _ = await asyncio.wait({t}, timeout=spec.get("horizon", 120.0))
+            if done and not t.cancelled() and t.exception() is not None:
+                rr.outcome = "raised"
+                rr.err = repr(t.exception())
+            else:
+                rr.outcome = "api-horizon"
+            rr.R = loop.time() - T0
+            sc.trace.add("listen_" + rr.outcome, err=rr.err)
+            t.cancel()
+            try:
+                await asyncio.wait({t}, timeout=1)
+            except BaseException:  # noqa: BLE001
+                pass
+            return
         receiver = MonReceiver(
             broker=broker,
             executor=executor,
